@@ -220,6 +220,9 @@ func (intp *Interpreter) executeOne(obj Object, execProc bool) error {
 		intp.Stack = append(intp.Stack[:a], proc)
 		return nil
 	} else if obj == Operator("{") {
+		if len(intp.procStart) >= maxProcNestingDepth {
+			return intp.e(eLimitcheck, "procedures nested too deeply")
+		}
 		intp.procStart = append(intp.procStart, len(intp.Stack))
 		return nil
 	} else if len(intp.procStart) > 0 {
@@ -403,5 +406,6 @@ const (
 	maxDictSize          = 65536
 	maxDictStackDepth    = 20
 	maxOperandStackDepth = 500
+	maxProcNestingDepth  = 500
 	maxStringSize        = 65536
 )
